@@ -252,6 +252,8 @@ OBJS = {
 OBJS_GLOBALNS = {
     "needsglobals": (lambda: me.NeedsGlobals(hidden_part=me._HiddenPart(v=1), hidden_parts=[me._HiddenPart(v=2), me._HiddenPart()], hidden_label="l"), "m_edge.NeedsGlobals"),
 }
+# classes that only work with SerializerConfig.globalns: never a parse target, never named by a fault
+SERIALIZE_ONLY = {"m_edge.NeedsGlobals"}
 # late modules an object needs registered before it can be touched
 OBJ_NEEDS = {"bird": "L1", "zoo_bird": "L1", "lateroot": "L1", "latetwo": "L2"}
 
